@@ -17,6 +17,26 @@ CHECKS = {
         design='DESIGN.md 4/C05'),
 }
 
+CHECKS['C01'] = dict(
+    technique='exhaustive enumeration of robust model specs from a grammar on the real rsome.ro; independent worst case over exact vertex lists / boundary lattices',
+    text='Every RoSpec of a bounded grammar (36 set kinds incl. intersections and lower-dimensional sets, attachments via '
+         'minmax/forall, all LDR dependency masks and declaration styles, constraint surface forms, senses, objective forms, '
+         'dimensions 1-3, solver interfaces) is built and solved on the real code; the returned decisions are substituted '
+         'into the spec and each constraint is evaluated on reference member points of its set (exact vertices / dense '
+         'boundary lattice with exact facet corners). A positive value at a member point is a real violation, so alarms are sound.',
+    note='Trusted: closed-form membership tests, NumPy, solver tolerances (2e-6 LP, 2e-5 ECOS, 2e-4 Gurobi). Bounds: d<=3, nx=2, '
+         'ny<=2, 4 coefficient palettes (quick: one selected by VERIF_SEED). SDP sets not covered (no solver).',
+    design='DESIGN.md 4/C01')
+CHECKS['C02'] = dict(
+    technique='same exhaustive spec enumeration; differential against an independent semi-infinite solver (vertex-scenario LP / cutting planes over a boundary lattice)',
+    text='Same state space as C01. For every spec the optimum reported by rsome is compared with the optimum of the '
+         'semi-infinite problem computed independently: scenario LP over the exact vertices of polytopic sets, cutting '
+         'planes with exact argmax over a 40000-direction boundary lattice for curved sets, LDR coefficients restricted to the '
+         'declared mask, robust equalities as identities on the affine hull. Detects both conservative and unsafe counterparts.',
+    note='Trusted: SciPy HiGHS as reference LP solver, rsmc/ref/sets.py + roref.py (~300 lines). Curved-set reference is an inner '
+         'approximation with stated eps (1e-6 smooth, 5e-4 curved-curved corners) included in the tolerance.',
+    design='DESIGN.md 4/C02')
+
 NOT_YET = {}
 
 
